@@ -56,7 +56,7 @@ def one_case(rng, tier):
 
 
 def generate(rng, tier):
-    n = 1500 if tier == "quick" else 30000
+    n = 4000 if tier == "quick" else 40000
     cases = [one_case(rng, tier) for _ in range(n)]
     info = {"rule": "terms whose emptiness is only semantic (disjoint intersections, complements of universal languages, loops over empty bodies, x & ~x under concatenation, length mismatches) mixed with random and degenerate terms; is_empty_re and get_string in both orders (manager history), witness re-checked by the reference matcher and the compiled automaton; non-trivial = at least one operator",
             "distribution": {"cases": n}}
